@@ -62,6 +62,9 @@ Proof.
   - apply Z.leb_le. lia.
   - apply Z.ltb_lt. lia.
 Qed.
+(* the guard of Value::blind_with_shared_secret (since 17278a0) passes exactly for values the range proof can cover from below *)
+Lemma min_guard v : 1 <= v -> (v <? RANGEPROOF_MIN_VALUE) = false.
+Proof. intro H. apply Z.ltb_ge. rewrite rp_min_value. exact H. Qed.
 Lemma rp_new_some c v vbf msg spk key gen :
   1 <= v <= I64_MAX -> rp_new c v vbf msg spk key gen = Some (mkRP c spk gen v vbf msg key true).
 Proof.
